@@ -36,6 +36,28 @@ theorem C08_perm_sorted_stable (m : MatrixModel) (p q : Nat) (hpq : p < q) (hq :
     omega
   omega
 
+/-- `std::stable_sort` is only skeleton-tied, but WHICH stable sort is used does not matter: any rearrangement of the
+`(key, index)` pairs that is sorted by the `std::pair` order is the model's `sortedPairs` — in particular any list that is
+sorted by the (generated, `C08_gen_key`) key alone and keeps the caller order inside equal keys (the specification of a
+stable sort by key).  So the reported permutation is THE stable-sort permutation of the keys. -/
+theorem C08_sort_unique (m : MatrixModel) (L : List (Int × Nat)) (hperm : L.Perm (pairs m)) :
+    (L.Pairwise (fun a b => pairLE a b = true) → L = sortedPairs m) ∧
+    (L.Pairwise (fun a b => a.1 < b.1 ∨ (a.1 = b.1 ∧ a.2 < b.2)) → L = sortedPairs m) := by
+  have huniq : L.Pairwise (fun a b => pairLE a b = true) → L = sortedPairs m := by
+    intro hs
+    apply List.Perm.eq_of_pairwise (le := fun a b => pairLE a b = true) _ hs (sortedPairs_pairwise m)
+      (hperm.trans (sortedPairs_perm m).symm)
+    intro a b _ _ h1 h2
+    simp only [pairLE, Bool.or_eq_true, Bool.and_eq_true, decide_eq_true_eq] at h1 h2
+    apply Prod.ext <;> omega
+  refine ⟨huniq, ?_⟩
+  intro hs
+  apply huniq
+  apply hs.imp
+  intro a b h
+  simp only [pairLE, Bool.or_eq_true, Bool.and_eq_true, decide_eq_true_eq]
+  omega
+
 /-- position of column `j` lies in the block of its key class -/
 theorem C08_block_position (m : MatrixModel) (j : Nat) (hj : j < m.n) :
     (List.range m.n).countP (fun i => decide (key m i < key m j)) ≤ vperm m j ∧
